@@ -27,6 +27,7 @@ ASSUMPTIONS = [
     "ruff is replaced by an identity stand-in when the plugin formats its output",
 ]
 FLOORS = {"quick": {"streams": 150, "cut_executions": 15000}, "thorough": {"streams": 6000, "cut_executions": 600000}}
+ANCHORS = ['Message.load', 'Message.dump', 'load_fields', 'load_varint', 'dump_varint']
 CONTRACTS = ["bytes"]
 
 
